@@ -1,4 +1,6 @@
 """C08 - set operations obey multiset algebra; hash variants agree."""
+from fractions import Fraction
+
 import petl as etl
 from hypothesis import strategies as st
 
@@ -21,7 +23,11 @@ ASSUMPTIONS = [
 ]
 
 OPS = ["complement", "intersection", "diff", "recordcomplement", "recorddiff", "hashcomplement", "hashintersection", "law"]
-CELL = st.one_of(gen.keyish, gen.keyish, gen.hvalue)
+# values outside petl's own notion of "number" that nevertheless compare natively with numbers; none of them is == to any
+# int, float or Decimal, so multiset algebra (the oracle here is order-free) is well defined whatever place the ordering
+# gives them
+EXOTIC = [Fraction(1, 3), Fraction(-2, 3), Fraction(7, 3)]
+CELL = st.one_of(gen.keyish, gen.keyish, gen.hvalue, st.sampled_from(EXOTIC))
 
 
 @st.composite
@@ -43,6 +49,8 @@ def case(draw, tier):
         c["b"] = [[r[i] for i in perm] for r in b]
     elif draw(st.booleans()):
         c["b"] = [["x", "y", "z", "u", "w"][:nf]] + [list(r) for r in b[1:]]
+    # inputs that are themselves whole-row sort views, ascending or descending
+    c["upstream"] = [draw(st.sampled_from(["none", "none", "none", "asc", "desc"])) for _ in range(2)]
     return c
 
 
@@ -53,6 +61,14 @@ def _run(f, *args, **kw):
 def check(case, ctx):
     op, a, b, strict = case["op"], case["a"], case["b"], case["strict"]
     A, B = codec.snapshot(a), codec.snapshot(b)
+    ups = case.get("upstream") or ["none", "none"]
+    if ups[0] != "none":
+        A = etl.sort(A, reverse=ups[0] == "desc")
+        a = [list(r) for r in R.ref_sort(a, None, ups[0] == "desc")]   # a's order, for the hash variants
+    if ups[1] != "none":
+        B = etl.sort(B, reverse=ups[1] == "desc")
+    if ups != ["none", "none"]:
+        ctx.label("upstream-sortview")
     ba = RS.align(b, a[0]) if op.startswith("record") else b
     ca, cb = RS.multiset(a[1:]), RS.multiset(ba[1:])
     ctx.label("op:" + op, "strict" if strict else "lenient", "a-empty" if len(a) == 1 else "a-rows", "b-empty" if len(b) == 1 else "b-rows")
